@@ -68,7 +68,23 @@ func c08Input(safe bool, name string, args []*variants.Variant) sx.SX {
 }
 
 // fnOracle adds the host answers a call of the named default function may need.
-func fnOracle(name string, args []*variants.Variant, out *sx.List) {
+// dateComponents converts the arguments of Date(...) the way the function does (every argument through the
+// manager's Convert to Integer); ok = false when a conversion fails (the function then fails too).
+func dateComponents(args []*variants.Variant, ops variants.IVariantOperations) (d [7]int, ok bool) {
+	d = [7]int{0, 1, 1, 0, 0, 0, 0}
+	for i, a := range args {
+		v, err := ops.Convert(a, variants.Integer)
+		if err != nil || v == nil {
+			return d, false
+		}
+		d[i] = v.AsInteger()
+	}
+	return d, true
+}
+
+func fnOracle(name string, args []*variants.Variant, out *sx.List) { fnOracleWith(name, args, out, nil) }
+
+func fnOracleWith(name string, args []*variants.Variant, out *sx.List, ops variants.IVariantOperations) {
 	orc := *out
 	up := strings.ToUpper(name)
 	if mf, ok := mathFns[up]; ok && len(args) > 0 {
@@ -95,6 +111,12 @@ func fnOracle(name string, args []*variants.Variant, out *sx.List) {
 				d[i] = 0
 			default:
 				ok = false
+			}
+		}
+		if !ok && ops != nil {
+			if dd, ok2 := dateComponents(args, ops); ok2 {
+				copy(d, dd[:])
+				ok = true
 			}
 		}
 		if ok {
